@@ -109,6 +109,11 @@ def random_scenarios(n):
                 continue
             seen.add((m, i_ / n_))
             lvl.append({"m": m, "ch": 1, "n": n_, "evs": [{"i": i_, "kind": 0, "vol": 0, "pan": 0, "bl": r.choice([25000, 40000, 50000, 75000])}]})
+        if i % 5 == 2:
+            # a very slow tempo (1.0625 bpm, a value with more than three decimals) for 1/192 of a measure, like a stop
+            lvl.append({"m": 6, "ch": 1, "n": 192, "evs": [{"i": 10, "kind": 0, "vol": 0, "pan": 0, "bl": 5647059},
+                                                            {"i": 11, "kind": 0, "vol": 0, "pan": 0, "bl": 50000}]})
+            lvl.append({"m": 7, "ch": 2, "n": 1, "evs": [{"i": 0, "kind": 0, "vol": 1, "pan": 1, "bl": 0}]})
         out.append({"id": f"r{i}", "lvl": lvl, "bl0": r.choice([50000, 30000]), "variant": i})
     return out
 
